@@ -21,6 +21,16 @@ PROPS = {
                 thorough={"checks": 12000, "shards": 16, "timeout": 2400},
                 technique="property-based testing (rapid): generated histories with a context end at every position, outcome compared with a reference model; bounded-return with a confirmed-hang rule",
                 level_text="reference-model comparison of the outcome of generated histories (quorum / exhaustion / context end, including zero and one targeted node); hangs are confirmed by two goroutine dumps 10 s apart"),
+    "C06": dict(SCEN, pkg="./props/c06", level="exploration",
+                quick={"checks": 800, "shards": 4, "timeout": 600},
+                thorough={"checks": 8000, "shards": 16, "timeout": 2400},
+                technique="property-based testing (rapid): generated per-node tables and call kinds; delivery multiset compared with f(request, id); bounded return of one-way calls behind blocked handlers / blocked dial",
+                level_text="generated per-node functions (skip none/some/all, distinct tags and payloads) over all call kinds that accept them plus plain calls, multicast and unicast; deliveries recorded at the servers are compared with the model after a fence; one-way calls are made while every handler (and optionally the dial) is blocked"),
+    "C07": dict(SCEN, pkg="./props/c07", level="fault_enumeration",
+                quick={"checks": 1200, "shards": 4, "timeout": 600},
+                thorough={"checks": 10000, "shards": 16, "timeout": 2400},
+                technique="property-based fault injection (rapid): generated failing subsets x failure kinds x strike positions, error-list reference model",
+                level_text="generated fault plans (never started, stopped before/while/after the handler answered, handler errors with all status codes, reply+error) over 1-7 nodes; the error text is compared with a model of who failed how; strike positions are controlled through handler gates"),
     "C13": {
         "pkg": "./props/c13", "overlay": "access", "puppet": True, "level": "exploration", "engine": "pure",
         "quick": {"checks": 6000, "shards": 4, "timeout": 600},
